@@ -220,6 +220,9 @@ def merge_evidence(prop, tier, seed, frags, wall, violations, extra):
         "exhaustive": bool(exhaustive_units) and len(exhaustive_units) == len(per_unit),
         "exhaustive_units": exhaustive_units,
     }
+    if any(f.get("hash_cap_hit") for f in frags):
+        cov["distinct_nontrivial_is_lower_bound"] = True
+        cov["rule"] += " || NOTE: at least one shard recorded more than 500000 distinct non-trivial cases; hashes beyond that were not kept, so distinct_nontrivial is a lower bound of the measured number."
     cov.update(extra)
     ev = {
         "property_id": prop,
